@@ -389,20 +389,38 @@ func (c *Ctx) ContributionRules(prop string) {
 			}
 			// decode helpers: a module helper that decodes and returns a nil error only past the nil-error edge of each of its
 			// Deserialize calls counts as a decode step of the handler
-			for _, hc := range Calls(H, func(d ssa.CallInstruction) bool {
+			isDeser := func(d ssa.CallInstruction) bool {
+				f := d.Common().StaticCallee()
+				return f != nil && f.Name() == "Deserialize" && errResultIndex2(d.Common().Signature()) >= 0
+			}
+			isHelperCall := func(d ssa.CallInstruction) bool {
 				f := d.Common().StaticCallee()
 				return f != nil && prog.InModule(f) && f.Blocks != nil && !d.Common().IsInvoke() && errResultIndex(f) >= 0
-			}) {
-				P := hc.Common().StaticCallee()
-				ds := Calls(P, func(d ssa.CallInstruction) bool {
-					f := d.Common().StaticCallee()
-					return f != nil && f.Name() == "Deserialize" && errResultIndex2(d.Common().Signature()) >= 0
-				})
-				if len(ds) == 0 {
-					continue
+			}
+			// decodeHelper: the number of Deserialize calls P (and the decode helpers it calls) performs, each of which must
+			// lie before P's nil-error returns only through its own nil-error edge; ok=false reports a failure
+			var decodeHelper func(P *ssa.Function, depth int) (int, bool)
+			decodeHelper = func(P *ssa.Function, depth int) (int, bool) {
+				n, okP := 0, true
+				var steps []ssa.CallInstruction
+				for _, d := range Calls(P, isDeser) {
+					steps = append(steps, d)
+					n++
 				}
-				okP := true
-				for _, d := range ds {
+				if depth < 2 {
+					for _, d := range Calls(P, isHelperCall) {
+						m, okQ := decodeHelper(d.Common().StaticCallee(), depth+1)
+						if m == 0 {
+							continue
+						}
+						if !okQ {
+							okP = false
+						}
+						steps = append(steps, d)
+						n += m
+					}
+				}
+				for _, d := range steps {
 					errs := map[ssa.Value]bool{}
 					for _, e := range errValuesOfCall(d) {
 						errs[e] = true
@@ -414,7 +432,12 @@ func (c *Ctx) ContributionRules(prop string) {
 						c.R.Fail(rule4, Fn(P), c.Pos(d), "a decode helper can report success although an entry could not be decoded", "nil error only past the nil-error edge of every Deserialize", an.PathString(c.Pos, path))
 					}
 				}
-				if !okP {
+				return n, okP
+			}
+			for _, hc := range Calls(H, isHelperCall) {
+				P := hc.Common().StaticCallee()
+				m, okP := decodeHelper(P, 0)
+				if m == 0 || !okP {
 					continue
 				}
 				errs := map[ssa.Value]bool{}
@@ -425,7 +448,7 @@ func (c *Ctx) ContributionRules(prop string) {
 				if !an.Reachable(an.After(hc), target) {
 					continue
 				}
-				nd += len(ds)
+				nd += m
 				if x, path := an.Cut(an.CutQuery{From: an.After(hc), Target: func(i ssa.Instruction) bool { return i == target },
 					AcceptEdge: func(b *ssa.BasicBlock, i int, a *an.Atom) bool { return errNilAtom(a, errs) }}); x != nil {
 					bad = true
